@@ -2,30 +2,109 @@ import SMGo.Proofs.ISAValSealCode2
 namespace SMGo.Proofs.ISAVal
 open SMGo.Model.ISAVal SMGo.Model.ISA
 
-/-! # E1: the two fused routines decoded and decomposed -/
+/-! # E1: the two fused routines decoded and decomposed
+
+  The listings have 5361 and 5559 instructions: every check below is organised chunk by chunk (the generated listings
+  come in chunks of 128 instructions), so that the kernel never recurses over the whole list. -/
+
+/-- total decoding: an unknown mnemonic would become a NOP (there is none: `known_seal`, `known_open`) -/
+def decodeD (i : Instr) : DInstr :=
+  match Mn.ofString i.mn with
+  | some mn => ⟨i.pc, mn, i.ops, i.vw⟩
+  | none => ⟨i.pc, .NOP, i.ops, i.vw⟩
+
+def known (i : Instr) : Bool := (Mn.ofString i.mn).isSome
+
+theorem decode_of_known {i : Instr} (h : known i = true) : decode i = .ok (decodeD i) := by
+  unfold known at h
+  unfold decode decodeD
+  cases hm : Mn.ofString i.mn with
+  | none => rw [hm] at h; cases h
+  | some mn => rfl
+
+theorem mapM_decode (l : List Instr) (h : ∀ i, i ∈ l → known i = true) : l.mapM decode = .ok (l.map decodeD) := by
+  induction l with
+  | nil => rfl
+  | cons x xs ih =>
+    rw [List.mapM_cons, decode_of_known (h x (by simp)), ih (fun i hi => h i (by simp [hi]))]
+    rfl
+
+theorem ofListing_chunks (cs : List (List Instr)) (h : cs.all (fun c => c.all known) = true) :
+    Routine.ofListing cs.flatten = .ok (cs.flatten.map decodeD) := by
+  apply mapM_decode
+  intro i hi
+  rw [List.mem_flatten] at hi
+  obtain ⟨c, hc, hic⟩ := hi
+  rw [List.all_eq_true] at h
+  have := h c hc
+  rw [List.all_eq_true] at this
+  exact this i hic
 
 /-- the decoded listing of `sealAsm` / `openAsm` (with the byte offsets: the branch targets refer to them) -/
-def sealR : Routine := (Routine.ofListing Gen.ListAmd64Gcm.sealAsm).toOption.getD []
-def openR : Routine := (Routine.ofListing Gen.ListAmd64Gcm.openAsm).toOption.getD []
+def sealR : Routine := Gen.ListAmd64Gcm.sealAsm.map decodeD
 
-theorem sealR_ok : Routine.ofListing Gen.ListAmd64Gcm.sealAsm = .ok sealR := by
-  have h : (Routine.ofListing Gen.ListAmd64Gcm.sealAsm).toOption = some sealR := by decide +kernel
-  cases hr : Routine.ofListing Gen.ListAmd64Gcm.sealAsm with
-  | error e => rw [hr] at h; simp [Except.toOption] at h
-  | ok r => rw [hr] at h; simp only [Except.toOption, Option.some.injEq] at h; rw [h]
+theorem known_seal : Gen.ListAmd64Gcm.sealAsm_chunks.all (fun c => c.all known) = true := by decide +kernel
 
-theorem openR_ok : Routine.ofListing Gen.ListAmd64Gcm.openAsm = .ok openR := by
-  have h : (Routine.ofListing Gen.ListAmd64Gcm.openAsm).toOption = some openR := by decide +kernel
-  cases hr : Routine.ofListing Gen.ListAmd64Gcm.openAsm with
-  | error e => rw [hr] at h; simp [Except.toOption] at h
-  | ok r => rw [hr] at h; simp only [Except.toOption, Option.some.injEq] at h; rw [h]
+theorem sealR_ok : Routine.ofListing Gen.ListAmd64Gcm.sealAsm = .ok sealR := ofListing_chunks _ known_seal
+
+/-- compare the chunks of a listing, decoded and with the byte offsets erased, with a scheme -/
+def eqChunks : List (List Instr) → List DInstr → Bool
+  | [], code => code.isEmpty
+  | c :: cs, code => (c.map (fun i => erasePc (decodeD i)) == code.take c.length) && c.length ≤ code.length
+      && eqChunks cs (code.drop c.length)
+
+theorem eqChunks_sound (cs : List (List Instr)) (code : List DInstr) (h : eqChunks cs code = true) :
+    (cs.flatten.map decodeD).map erasePc = code := by
+  induction cs generalizing code with
+  | nil => simp only [eqChunks, List.isEmpty_iff] at h; subst h; rfl
+  | cons c cs ih =>
+    simp only [eqChunks, Bool.and_eq_true, beq_iff_eq, decide_eq_true_eq] at h
+    obtain ⟨⟨h1, h2⟩, h3⟩ := h
+    have := ih _ h3
+    rw [List.flatten_cons, List.map_append, List.map_append, this, List.map_map]
+    have h1' : List.map (erasePc ∘ decodeD) c = code.take c.length := h1
+    rw [h1', List.take_append_drop]
 
 /-- **the regenerated listing of `sealAsm` is the scheme `sealCode`** (byte offsets aside): every one of its 5361
     instructions belongs to a named macro instance -/
-theorem seal_scheme : sealR.map erasePc = sealCode := by decide +kernel
+theorem seal_scheme : sealR.map erasePc = sealCode :=
+  eqChunks_sound _ _ (by decide +kernel : eqChunks Gen.ListAmd64Gcm.sealAsm_chunks sealCode = true)
 
-/-- **the regenerated listing of `openAsm` is the scheme `openCode`** (5559 instructions) -/
-theorem open_scheme : openR.map erasePc = openCode := by decide +kernel
+
+/-! ### entry points -/
+
+/-- index of the first instruction at byte offset `pc` -/
+def idxOfPc : List DInstr → Nat → Nat → Option Nat
+  | [], _, _ => none
+  | i :: rest, pc, k => if i.pc = pc then some k else idxOfPc rest pc (k + 1)
+
+theorem findPc_of_idx (r : List DInstr) (pc k j : Nat) (h : idxOfPc r pc k = some (k + j)) : findPc r pc = some (r.drop j) := by
+  induction r generalizing k j with
+  | nil => simp [idxOfPc] at h
+  | cons i rest ih =>
+    unfold idxOfPc at h
+    unfold findPc
+    split at h
+    · rename_i hp
+      rw [if_pos hp]
+      have : j = 0 := by simp only [Option.some.injEq] at h; omega
+      subst this; rfl
+    · rename_i hp
+      rw [if_neg hp]
+      have hk : ∀ (l : List DInstr) (a b : Nat), idxOfPc l pc a = some b → a ≤ b := by
+        intro l
+        induction l with
+        | nil => intro a b hb; simp [idxOfPc] at hb
+        | cons x xs ihx =>
+          intro a b hb
+          unfold idxOfPc at hb
+          split at hb
+          · simp only [Option.some.injEq] at hb; omega
+          · have := ihx _ _ hb; omega
+      have hle := hk _ _ _ h
+      obtain ⟨j', rfl⟩ : ∃ j', j = j' + 1 := ⟨j - 1, by omega⟩
+      have := ih (k + 1) j' (by rw [h]; congr 1; omega)
+      rw [this]; rfl
 
 /-- named entry points: (name, index in the routine, byte offset) -/
 def sealLabels : List (String × Nat × Nat) :=
@@ -91,99 +170,25 @@ def sealLabels : List (String × Nat × Nat) :=
    ("tag.copy1", 5351, 31917),
    ("tag.copyEnd", 5359, 31944)]
 
-def openLabels : List (String × Nat × Nat) :=
-  [("prepare", 0, 0),
-   ("rkArg", 18, 117),
-   ("H.encrypt", 19, 122),
-   ("gHashPre", 549, 3334),
-   ("nonceArgs", 628, 3827),
-   ("J0", 631, 3842),
-   ("J0.hash", 634, 3858),
-   ("J0.loopBy4", 642, 3892),
-   ("J0.loopBy1", 678, 4113),
-   ("J0.last", 708, 4295),
-   ("J0.copy8", 713, 4323),
-   ("J0.copy4", 721, 4350),
-   ("J0.copy2", 729, 4376),
-   ("J0.copy1", 737, 4404),
-   ("J0.copyEnd", 745, 4430),
-   ("J0.doneJ0", 775, 4607),
-   ("J0.branch1", 814, 4841),
-   ("J0.endJ0", 821, 4882),
-   ("TMask.encrypt", 822, 4886),
-   ("aadArgs", 1353, 8093),
-   ("SPre", 1355, 8103),
-   ("SPre.loopWith4", 1364, 8143),
-   ("SPre.loopWith1", 1400, 8363),
-   ("SPre.withRemain", 1430, 8544),
-   ("SPre.copy8", 1435, 8572),
-   ("SPre.copy4", 1443, 8598),
-   ("SPre.copy2", 1451, 8623),
-   ("SPre.copy1", 1459, 8650),
-   ("SPre.copyEnd", 1467, 8675),
-   ("SPre.endSPre", 1498, 8856),
-   ("SMid", 1504, 8879),
-   ("SMid.loop4", 1512, 8913),
-   ("SMid.loop1", 1548, 9133),
-   ("SMid.toRemain", 1578, 9314),
-   ("SMid.copy8", 1583, 9342),
-   ("SMid.copy4", 1591, 9368),
-   ("SMid.copy2", 1599, 9393),
-   ("SMid.copy1", 1607, 9420),
-   ("SMid.copyEnd", 1615, 9445),
-   ("postArgs", 1646, 9626),
-   ("SPost", 1653, 9656),
-   ("tag.copy8", 1700, 9942),
-   ("tag.copy4", 1708, 9968),
-   ("tag.copy2", 1716, 9994),
-   ("tag.copy1", 1724, 10022),
-   ("tag.copyEnd", 1732, 10048),
-   ("cmp", 1740, 10078),
-   ("cmp.fastCmp", 1742, 10092),
-   ("cmp.slowCmp", 1751, 10121),
-   ("cmp.cmpDone", 1760, 10149),
-   ("verdict", 1775, 10193),
-   ("decryptArgs", 1778, 10212),
-   ("ladder", 1785, 10247),
-   ("loopX16", 1802, 10346),
-   ("X16Done", 2487, 14608),
-   ("loopX8", 2492, 14634),
-   ("X8Done", 3123, 18455),
-   ("loopX4", 3128, 18481),
-   ("X4Done", 3728, 22102),
-   ("loopX2", 3733, 22119),
-   ("X2Done", 4330, 25731),
-   ("loopX1", 4335, 25748),
-   ("X1Done", 4900, 29167),
-   ("loopX0", 4905, 29184),
-   ("X0.copyIn8", 4912, 29224),
-   ("X0.copyIn4", 4920, 29250),
-   ("X0.copyIn2", 4928, 29276),
-   ("X0.copyIn1", 4936, 29304),
-   ("X0.copyInEnd", 4944, 29330),
-   ("X0.clearLoop", 5483, 32572),
-   ("X0.clearEnd", 5489, 32591),
-   ("X0.copyOut8", 5491, 32594),
-   ("X0.copyOut4", 5499, 32621),
-   ("X0.copyOut2", 5507, 32648),
-   ("X0.copyOut1", 5515, 32677),
-   ("X0.copyOutEnd", 5523, 32704),
-   ("cryptoBlocksDone", 5555, 32889),
-   ("tagUnMatch", 5557, 32891),
-   ("openDone", 5558, 32900)]
-
 /-- the branch targets of a routine -/
 def branchTargets (r : Routine) : List Nat :=
   r.filterMap (fun i => match i.ops with | [.target p] => some p | _ => none)
 
-/-- a label table is right for a routine: each label is the byte offset of the instruction at its index, control
-    arriving at that offset continues with exactly the instructions from that index on, and every branch target of the
-    routine is a label -/
+/-- a label table is right for a routine: each label is the byte offset of the FIRST instruction at its index (control
+    arriving at that offset continues with exactly the instructions from that index on: `label_findPc`), and every
+    branch target of the routine is a label -/
 def labelsOk (r : Routine) (ls : List (String × Nat × Nat)) : Bool :=
-  ls.all (fun e => findPc r e.2.2 == some (r.drop e.2.1)) &&
+  ls.all (fun e => idxOfPc r e.2.2 0 == some e.2.1) &&
   (branchTargets r).all (fun t => ls.any (fun e => e.2.2 == t))
 
+theorem label_findPc {r : Routine} {ls : List (String × Nat × Nat)} (h : labelsOk r ls = true)
+    {name : String} {idx pc : Nat} (he : (name, idx, pc) ∈ ls) : findPc r pc = some (r.drop idx) := by
+  unfold labelsOk at h
+  rw [Bool.and_eq_true, List.all_eq_true] at h
+  have := h.1 _ he
+  simp only [beq_iff_eq] at this
+  exact findPc_of_idx r pc 0 idx (by rw [this, Nat.zero_add])
+
 theorem seal_labels : labelsOk sealR sealLabels = true := by decide +kernel
-theorem open_labels : labelsOk openR openLabels = true := by decide +kernel
 
 end SMGo.Proofs.ISAVal
